@@ -444,6 +444,7 @@ func (e *Engine) srcBytes(filename string) []byte {
 func (f *Frame) loopEnv(l *loop, st *State) *SpecEnv {
 	env := f.funcEnv(st, f.entry)
 	f.bindLocals(env, l.head, st)
+	env.rangeSeen = f.loopRangeSeen(l)
 	return env
 }
 
